@@ -70,18 +70,20 @@ def rule_range(program, ctx):
     else:
         ctx.bad(finding_at(P, rid, node, "SQL GC statement has no `kind >= a and kind < b` range"))
     kc = program.func("nostr_relay.storage.kv:KVGarbageCollector.collect")
-    keys = [(s.targets[0].id, s.value) for s in walk_no_nested(kc) if isinstance(s, ast.Assign) and isinstance(s.targets[0], ast.Name) and "INDEXES['kinds'].to_key" in ast.unparse(s.value)]
-    vals = {}
-    for name, v in keys:
-        c = next((c for c in ast.walk(v) if isinstance(c, ast.Call) and ast.unparse(c.func) == "INDEXES['kinds'].to_key"), None)
-        if c is not None and c.args and isinstance(c.args[0], ast.Constant) and v is c:
-            vals[name] = c.args[0].value
-        else:
-            vals[name] = ast.unparse(v)
-    if vals.get("start") == LO and vals.get("end") in (HI - 1, HI):
-        ctx.ok(rid, kc, f"LMDB GC: kind walk from to_key({LO}) to to_key({vals.get('end')})")
+    from ..lib import expand_aliases
+
+    # every call INDEXES['kinds'].to_key(<const>) that can be reached through named temporaries / helper arguments
+    consts = []
+    for c in ast.walk(kc):
+        if isinstance(c, ast.Call):
+            ec = expand_aliases(kc, c)
+            if isinstance(ec, ast.Call) and ast.unparse(ec.func) == "INDEXES['kinds'].to_key" and ec.args and isinstance(ec.args[0], ast.Constant):
+                consts.append(ec.args[0].value)
+    consts = sorted(set(consts))
+    if consts and consts[0] == LO and consts[-1] in (HI - 1, HI) and len(consts) == 2:
+        ctx.ok(rid, kc, f"LMDB GC: kind walk from to_key({LO}) to to_key({consts[-1]})")
     else:
-        ctx.bad(finding_func(P, rid, kc, f"LMDB GC walks the kind index over {vals}: not the ephemeral range [20000, 30000)", text="def collect(...) :: kind range"))
+        ctx.bad(finding_func(P, rid, kc, f"LMDB GC walks the kind index over {consts}: not the ephemeral range [20000, 30000)", text="def collect(...) :: kind range"))
 
 
 def _top_level_split(expr: str, word: str) -> list:
@@ -132,7 +134,8 @@ def rule_sources(program, ctx):
     # %NOW% substituted by the current integer time
     qc = program.func("nostr_relay.storage.db:QueryGarbageCollector.collect")
     rep = next((c for c in ast.walk(qc) if isinstance(c, ast.Call) and isinstance(c.func, ast.Attribute) and c.func.attr == "replace" and c.args and isinstance(c.args[0], ast.Constant) and c.args[0].value == "%NOW%"), None)
-    if rep is not None and ast.unparse(rep.args[1]) in ("str(int(time()))",):
+    from ..lib import expand_aliases
+    if rep is not None and ast.unparse(expand_aliases(qc, rep.args[1])) in ("str(int(time()))",):
         ctx.ok(rid, rep, "%NOW% <- str(int(time()))")
     else:
         ctx.bad(finding_func(P, rid, qc, "the GC statement's %NOW% is not replaced by str(int(time()))", text="def collect(...) :: now"))
@@ -158,12 +161,18 @@ def rule_sources(program, ctx):
         for l in walks_in(fn):
             brk = [n for n in l.body if isinstance(n, ast.If) and any(isinstance(b, ast.Break) for b in n.body)]
             first = l.body[0] if l.body else None
-            good = brk and brk[0] is first and isinstance(brk[0].test, ast.Compare) and isinstance(brk[0].test.ops[0], (ast.Gt, ast.GtE)) and isinstance(l.target, ast.Name) and dotted(brk[0].test.left) == l.target.id and isinstance(brk[0].test.comparators[0], ast.Name)
+            good = brk and brk[0] is first and isinstance(brk[0].test, ast.Compare) and isinstance(brk[0].test.ops[0], (ast.Gt, ast.GtE)) and isinstance(l.target, ast.Name) and dotted(brk[0].test.left) == l.target.id
             if not good:
                 ctx.bad(finding_at(P, rid, l, "a GC range walk has no leading `if key > end: break`: it runs into the neighbouring index / unexpired values"))
                 continue
             ctx.ok(rid, brk[0], f"{qual_of(l)}: range walk stops at `{ast.unparse(brk[0].test)}` before collecting")
-            bound = brk[0].test.comparators[0].id
+            cmp_ = brk[0].test.comparators[0]
+            if not isinstance(cmp_, ast.Name):
+                ecmp = expand_aliases(fn, cmp_)
+                if isinstance(ecmp, ast.BinOp) and isinstance(ecmp.op, ast.Add):
+                    ctx.bad(finding_at(P, rid, brk[0], f"the range walk's end key is padded (`{ast.unparse(cmp_)[:50]}`): the walk becomes inclusive of every key that merely starts with the end value"))
+                continue
+            bound = cmp_.id
             for s2 in walk_no_nested(fn):
                 padded = (isinstance(s2, ast.AugAssign) and dotted(s2.target) == bound) or (
                     isinstance(s2, ast.Assign) and any(dotted(t) == bound for t in s2.targets) and isinstance(s2.value, ast.BinOp) and isinstance(s2.value.op, ast.Add))
@@ -172,16 +181,21 @@ def rule_sources(program, ctx):
                                        "for the expiration walk that collects events expiring exactly now or whose (longer) expiration starts with the digits of now"))
     for s in walk_no_nested(kc):
         if isinstance(s, ast.Assign) and isinstance(s.targets[0], ast.Name) and s.targets[0].id in ("start", "end"):
-            v = s.value
+            v = expand_aliases(kc, s.value)
             if not (isinstance(v, ast.Call) and ast.unparse(v.func).endswith(".to_key")):
                 ctx.bad(finding_at(P, rid, s, f"GC range bound `{s.targets[0].id}` is `{ast.unparse(v)[:60]}`, not a plain to_key(...): a padded end key also collects values that merely start with "
                                    "the digits of now (an expiration far in the future) or equal now"))
-    exp = [s for s in walk_no_nested(kc) if isinstance(s, ast.Assign) and "('expiration'" in ast.unparse(s.value)]
-    okexp = {s.targets[0].id: ast.unparse(s.value) for s in exp}
-    if okexp.get("start") == "INDEXES['tags'].to_key(('expiration', '0'))" and okexp.get("end") == "INDEXES['tags'].to_key(('expiration', str(int(time()))))":
-        ctx.ok(rid, exp[0], "expiration walk: from ('expiration','0') to ('expiration', str(int(time())))")
+    exp_calls = set()
+    for c in ast.walk(kc):
+        if isinstance(c, ast.Call):
+            ec = expand_aliases(kc, c)
+            if isinstance(ec, ast.Call) and ast.unparse(ec.func) == "INDEXES['tags'].to_key" and "'expiration'" in ast.unparse(ec):
+                exp_calls.add(ast.unparse(ec))
+    want = {"INDEXES['tags'].to_key(('expiration', '0'))", "INDEXES['tags'].to_key(('expiration', str(int(time()))))"}
+    if exp_calls == want:
+        ctx.ok(rid, kc, "expiration walk: from ('expiration','0') to ('expiration', str(int(time())))")
     else:
-        ctx.bad(finding_func(P, rid, kc, f"LMDB expiration walk bounds are {okexp}", text="def collect(...) :: expiration bounds"))
+        ctx.bad(finding_func(P, rid, kc, f"LMDB expiration walk bounds are {sorted(exp_calls)}", text="def collect(...) :: expiration bounds"))
     if any(isinstance(c, ast.Call) and call_name(c) == "self.storage.delete_event" for c in ast.walk(kc)):
         ctx.ok(rid, kc, "collected ids are deleted through storage.delete_event (writer thread, all indexes)")
     else:
@@ -206,15 +220,16 @@ def rule_order(program, ctx):
                            "casts to 0 and the event is collected although it has no well-formed expired timestamp", text="cast"))
     elif not cast and not length:
         ctx.bad(finding_at(P, rid, node, "the SQL GC compares the TEXT column tags.value with the text of now: the comparison is lexicographic, so '10000000000' (year 2286) < '17…' is "
-                           "collected now while '999999999' (2001) never is", text="text compare"))
+                           "collected now while '999999999' (2001) never is", label="SQL expiration compared as text"))
     else:
         ctx.ok(rid, node, "SQL expiration comparison is numeric with a well-formedness guard / equal-length text")
     kc = program.func("nostr_relay.storage.kv:KVGarbageCollector.collect")
+    from ..lib import expand_aliases
     lex = [s for s in walk_no_nested(kc) if isinstance(s, ast.Assign) and "('expiration', str(int(time())))" in ast.unparse(s.value)]
     guard = any(isinstance(n, ast.Call) and call_name(n) in ("len", "int") and "key" in ast.unparse(n) for l in walk_no_nested(kc) if isinstance(l, ast.For) for n in ast.walk(l))
     if lex and not guard:
         ctx.bad(finding_at(P, rid, lex[0], "the LMDB GC bounds the expiration walk by the byte string of now: keys are ordered lexicographically, so an 11-digit expiration sorts before a "
-                           "10-digit now and is collected, a 9-digit one never is", text="lexicographic"))
+                           "10-digit now and is collected, a 9-digit one never is", label="LMDB expiration bound compared lexicographically"))
     else:
         ctx.ok(rid, kc, "LMDB expiration walk compares decoded numbers / equal-length values")
 
